@@ -108,11 +108,13 @@ VERBS = [False, [], ["progress_bar"], ["print_results"], ["print_times"], ["prog
 def pre_build(ctx):
     import gen_units
     gen_units.pre_build(ctx, "translate_driver")
+    gen_units.pre_build(ctx, "translate_finish")
 
 
 def run(ctx):
     import gen_units
     gen_units.g_unit(ctx, "translate_driver")
+    gen_units.g_unit(ctx, "translate_finish")
     k_unit(ctx)
     u = ctx.unit("D:search(best)", "D",
                  "1-3 search() calls, rotating optimizers, plateaus/ties, negative/zero/non-finite scores, constraints, every "
